@@ -100,6 +100,23 @@ Section Windowing.
     tagged <- key_by_window_keyed size off ps ;; Ok (gbk kw_eqb tagged).
 End Windowing.
 
+(* Multi-resolution windowing (a user pipeline made only of the pieces above: windows of TWO
+   sizes computed by Window::tumble inside a `map`, then ONE group_by_key):
+     .map(|(sel, ev)| (Window::tumble(ev.ts, if sel == 0 { s1 } else { s2 }, off), ev.value))
+     .group_by_key()
+   Windows with a common start (or a common end) but different lengths are different keys. *)
+Definition group_by_tagged {E K V} (keqb : K -> K -> bool) (tagf : E -> outcome (K * V))
+           (ps : list (list E)) : outcome (list (K * list V)) :=
+  tagged <- map_outcome (map_outcome tagf) ps ;; Ok (gbk keqb tagged).
+
+Definition tag_mixed {V} (tumble : Z -> Z -> Z -> outcome window) (s1 s2 off : Z)
+           (e : Z * (Z * V)) : outcome (window * V) :=
+  w <- tumble (fst (snd e)) (if fst e =? 0 then s1 else s2) off ;; Ok (w, snd (snd e)).
+
+Definition group_by_mixed_window {V} (tumble : Z -> Z -> Z -> outcome window) (s1 s2 off : Z)
+           (ps : list (list (Z * (Z * V)))) : outcome (list (window * list V)) :=
+  group_by_tagged window_eqb (tag_mixed tumble s1 s2 off) ps.
+
 Arguments tag_unkeyed {V}. Arguments tag_keyed {K V}. Arguments kw_eqb {K}.
 Arguments key_by_window_unkeyed {V}. Arguments key_by_window_keyed {K V}.
 Arguments group_by_window {V}. Arguments group_by_key_and_window {K V}.
